@@ -31,7 +31,7 @@ def c34 (args : List String) : String :=
     -- the spans come from the Lean lexer (en language, `.` decimal: the harness model's settings)
     match hexDecode h, s.toNat?, e.toNat? with
     | some v, some s, some e =>
-      let sp := refSpans cfgEn v.toList.tail
+      let sp := valueSpans cfgEn v.toList
       let spStr := if sp.isEmpty then "-" else ",".intercalate (sp.map fun p => s!"{p.1}-{p.2}")
       match cycleReferenceLex cfgEn v.toList s e with
       | some (t, a, b) => s!"{hexEncode (String.ofList t)} {a} {b} | {spStr}"
